@@ -760,6 +760,9 @@ func (g *Gen) op(op string, v *view) []byte {
 			amt = rem/2 + 1
 		case 1:
 			amt = rem + 5
+			if d.DisputeId%2 == 0 { // an over-offer far above any rounding tolerance (after C04-j); no extra draw
+				amt = rem*3 + 1_000_000
+			}
 		case 2:
 			amt = g.amount(rem)
 		case 3:
